@@ -12,5 +12,8 @@ func main() {
 		"C05": runC05,
 		"C06": runC06,
 		"C11": runC11,
+		"C13": runC13,
+		"C14": runC14,
+		"C15": runC15,
 	})
 }
